@@ -124,6 +124,35 @@ FriEnd == LET st0 == [pos |-> E.positions, vals |-> [k \in DOMAIN E.positions |-
                    THEN (IF E.layers = 0 THEN "deep" ELSE "remainder")
               ELSE "accept"
 
+\* ---- PROVER: the proof is the proof of the trace the prover was given (as in Trace_Verifier.tla; stages prover-ood, prover-lde) ----
+\* main columns are base-field columns interpolated with native integers, auxiliary columns (extension elements) follow from the
+\* main columns and the recorded random elements and are interpolated coefficient by coefficient
+HasTrace == "tcols" \in DOMAIN E /\ Len(E.tcols) = W
+AuxStepX(j, cur, m) == LET r == RandOf(j)
+                       IN  IF E.aux_degs[j] = 1 THEN AddX(cur, ScaleX(r, m)) ELSE MulX(cur, PowX(AddX(Emb(m), r), E.aux_degs[j] - 1))
+ProverStage ==
+    LET n    == E.n
+        idx  == [j \in 1..n |-> j]
+        ninv == InvM(n)
+        tab  == TLCEval(LET gi == InvM(E.g) IN [i \in 1..n |-> PowM(gi, i - 1)])
+        Interp(col) == TLCEval([k \in 1..n |-> MulM(ninv, FoldLeft(LAMBDA acc, j : (acc + col[j] * tab[(((j - 1) * (k - 1)) % n) + 1]) % P, 0, idx))])
+        InterpX(col) == LET co == TLCEval([d \in 1..Deg |-> Interp([j \in 1..n |-> col[j][d]])])
+                        IN  [k \in 1..n |-> [d \in 1..Deg |-> co[d][k]]]
+        main == E.tcols
+        AuxCol(j) == FoldLeft(LAMBDA acc, i : Append(acc, AuxStepX(j, acc[i], main[((j - 1) % W) + 1][i])),
+                              <<IF E.aux_degs[j] = 1 THEN ZeroX ELSE OneX>>, [i \in 1..(n - 1) |-> i])
+        Bit(row, b) == (row \div (2 ^ b)) % 2
+        lr == XS(E.lrands)
+        LagCol == [row \in 1..n |-> ProdX(1..V, LAMBDA b : IF Bit(row - 1, b - 1) = 1 THEN lr[b] ELSE SubX(OneX, lr[b]))]
+        mcoef == TLCEval([c \in 1..W |-> LET co == Interp(main[c]) IN [k \in 1..n |-> Emb(co[k])]])
+        xcols == [j \in 1..NAux |-> AuxCol(j)] \o (IF E.lagrange THEN <<LagCol>> ELSE <<>>)
+        xcoef == TLCEval([c \in DOMAIN xcols |-> InterpX(xcols[c])])
+        AtX(c, x) == IF c <= W THEN EvalX(mcoef[c], x) ELSE EvalX(xcoef[c - W], x)
+        OodP == /\ \A c \in 1..NCols : Cur(c) = AtX(c, Z) /\ Nxt(c) = AtX(c, GZ)
+                /\ E.lagrange => \A i \in 1..(V + 1) : Lag(i) = AtX(NCols + 1, LagPts[i])
+        LdeP == \A k \in DOMAIN E.positions : \A c \in 1..(W + Len(xcols)) : RowAt(k, c) = AtX(c, Xq(k))
+    IN  IF ~OodP THEN "prover-ood" ELSE IF ~LdeP THEN "prover-lde" ELSE "ok"
+
 \* with a proper extension element as out-of-domain point no division by zero can occur; a point in the base field (possible,
 \* probability 1/p per coefficient) may hit the domains: not judged
 InBase(a) == \A i \in 2..Deg : a[i] = 0
@@ -134,7 +163,9 @@ CommitOK == /\ Len(E.trees) = (IF Len(E.aux_rows) > 0 THEN 3 ELSE 2) + E.layers
             /\ \A i \in DOMAIN E.trees : TreeOK(E.merges, E.trees[i])
 Algebra == IF ~ShapeOK THEN "shape" ELSE IF ~CoeffsOK THEN "coefficients" ELSE IF Degenerate THEN "degenerate"
            ELSE IF ~OodOK THEN "ood" ELSE IF ~DeepCoeffsOK THEN "coefficients" ELSE FriEnd
-ModelStage == IF Algebra = "accept" /\ ~CommitOK THEN "commitment" ELSE Algebra
+ModelStage == IF Algebra = "accept" /\ ~CommitOK THEN "commitment"
+              ELSE IF Algebra = "accept" /\ HasTrace /\ ~E.cheat /\ ProverStage # "ok" THEN ProverStage
+              ELSE Algebra
 
 Proof == /\ E.ev = "proof"
          /\ LET ms == ModelStage
